@@ -81,15 +81,30 @@ DTMAX = B(2, 4)
 # ---------------------------------------------------------------------------------------------- policy kernel (S)
 
 
-@obligation(quick=60, thorough=240, what="stop_after_attempt(n): k-th failure retried iff retryable and k < max(n,1) (real next, 4 policy spellings)",
-            partitions_quick=[f"variant == {v}" for v in range(4)], partitions_thorough=[f"variant == {v}" for v in range(4)],
+def _always_stop(attempts, elapsed_time, **kw):
+    return True
+
+
+def _never_stop(attempts, elapsed_time, **kw):
+    return False
+
+
+@obligation(quick=60, thorough=240, what="stop_after_attempt(n): k-th failure retried iff retryable and k < max(n,1) (real next, 6 policy spellings incl. a plain callable as "
+                 "the LEFT operand of & and |, which goes through __rand__ / __ror__)",
+            partitions_quick=[f"variant == {v}" for v in range(6)], partitions_thorough=[f"variant == {v}" for v in range(6)],
             bounds={"n": "-1..NMAX", "k": "1..KMAX", "elapsed": "0..8"})
 def ob_stop_after_attempt_iff(n: int, k: int, retryable: bool, el: int, variant: int) -> bool:
     """
-    pre: -1 <= n <= NMAX and 1 <= k <= KMAX and 0 <= el <= 8 and 0 <= variant <= 3
+    pre: -1 <= n <= NMAX and 1 <= k <= KMAX and 0 <= el <= 8 and 0 <= variant <= 5
     post: _
     """
-    if variant == 0:
+    if variant == 4:
+        # a user-supplied callable that always says stop, AND-ed in front: the conjunction stops exactly when stop_after_attempt does
+        pol = retry_policy(retry=retry_if_exception_type(ValueError), stop=_always_stop & stop_after_attempt(n))
+    elif variant == 5:
+        # a callable that never says stop, OR-ed in front
+        pol = retry_policy(retry=retry_if_exception_type(ValueError), stop=_never_stop | stop_after_attempt(n))
+    elif variant == 0:
         pol = retry_policy(retry=retry_if_exception_type(ValueError), wait=wait_fixed(0), stop=stop_after_attempt(n))
     elif variant == 1:
         pol = retry_policy(retry=retry_if_exception_type((ValueError, OSError)), stop=stop_after_attempt(n) | stop_after_attempt(n + 1))
